@@ -73,7 +73,35 @@ def lemmas():
     out.append(("a sum of non-negative terms is non-negative and monotone", [
         ("base", [sum_def(A, k)], SUMRR(A, z3.IntVal(0)) >= 0),
         ("step", [k >= 0, sum_def(A, k), SUMRR(A, k) >= 0, z3.Select(A, k) >= 0], z3.And(SUMRR(A, k + 1) >= 0, SUMRR(A, k + 1) >= SUMRR(A, k), SUMRR(A, k + 1) >= z3.Select(A, k)))]))
+    # L8: m (m + 1) is even (used for the size of the flattened upper triangle of a symmetric matrix)
+    m = z3.Int("m")
+    ev = lambda t: (t * (t + 1)) % 2 == 0
+    out.append(("m (m + 1) is even", [
+        ("base", [], ev(z3.IntVal(0))),
+        ("step", [m >= 0, ev(m)], ev(m + 1))]))
+    # L9: offsets of the rows of a flattened upper triangle:  TRIST(M, 0) = 0, TRIST(M, i+1) = TRIST(M, i) + M - i
+    M_, i_, r_ = z3.Ints("M i r")
+    tdef = lambda ii: z3.And(TRIST(M_, z3.IntVal(0)) == 0, TRIST(M_, ii + 1) == TRIST(M_, ii) + M_ - ii)
+    closed = lambda ii: 2 * TRIST(M_, ii) == 2 * ii * M_ - (ii - 1) * ii
+    out.append(("row offset of the flattened upper triangle: 2 TRIST(M, i) = 2 i M - (i - 1) i", [
+        ("base", [tdef(i_)], closed(z3.IntVal(0))),
+        ("step", [i_ >= 0, tdef(i_), closed(i_)], closed(i_ + 1))]))
+    mono = lambda ii: TRIST(M_, r_) + M_ - r_ <= TRIST(M_, ii)
+    out.append(("rows of the flattened upper triangle do not overlap: TRIST(M, r) + (M - r) <= TRIST(M, i) for r < i <= M", [
+        ("base", [r_ >= 0, tdef(r_)], mono(r_ + 1)),
+        ("step", [r_ >= 0, r_ < i_, i_ < M_, tdef(i_), mono(i_)], mono(i_ + 1))]))
     return out
+
+
+TRIST = z3.Function("TRIST", z3.IntSort(), z3.IntSort(), z3.IntSort())
+
+
+def trist_axioms(M):
+    """The three facts above as axioms for a given M (each proved by induction in this file)."""
+    i, r = z3.Ints("i!tri r!tri")
+    return [TRIST(M, z3.IntVal(0)) == 0,
+            z3.ForAll([i], z3.Implies(i >= 0, 2 * TRIST(M, i) == 2 * i * M - (i - 1) * i), patterns=[TRIST(M, i)]),
+            z3.ForAll([r, i], z3.Implies(z3.And(0 <= r, r < i, i <= M), TRIST(M, r) + M - r <= TRIST(M, i)), patterns=[z3.MultiPattern(TRIST(M, r), TRIST(M, i))])]
 
 
 def prove_all(timeout_ms=10000):
